@@ -66,6 +66,86 @@ theorem C13_release_sites :
 -- also: Restful.Pool.sync_pool_contract
 -- also: Restful.Pool.F13_witness
 
+/-! ### non-vacuity (audit)
+
+The protocol theorems of Lemmas/Pool.lean quantify over all schedules; here they are applied to one
+concrete interleaving — capacity 1, three requests in flight —, all hypotheses at once, and their
+conclusions are shown to fail for states that violate them. -/
+namespace C13Example
+open Pool
+
+/-- capacity 1.  Thread 0 takes the cached object 0; threads 1 and 2 find the channel empty and get
+    fresh objects 1 and 2; 0 gives 0 back (cached), 1 gives 1 back (no room: dropped), 3 then takes the
+    cached 0 again while 2 still holds 2; 2 tries to release an object it does not hold (skipped) -/
+def sched : List Step :=
+  [.acquire 0, .acquire 1, .acquire 2, .release 0 0, .release 1 1, .acquire 3, .release 2 0]
+
+example :
+    run (init 1) (sched.take 3) = { cap := 1, chan := [], held := [(2, 2), (1, 1), (0, 0)], next := 3 } ∧
+    run (init 1) (sched.take 5) = { cap := 1, chan := [0], held := [(2, 2)], next := 3 } ∧
+    run (init 1) sched = { cap := 1, chan := [], held := [(3, 0), (2, 2)], next := 3 } := by
+  decide
+
+/-- `C13_exclusive` on that schedule; `Inv` is not trivially true: it fails for a state in which an
+    object is held twice, one in which an object is cached while held, one over capacity, and one
+    whose fresh supply is not fresh -/
+example : Pool.Inv (run (init 1) sched) := C13_exclusive 1 sched
+example :
+    ¬ Pool.Inv { cap := 1, chan := [], held := [(0, 0), (1, 0)], next := 1 } ∧
+    ¬ Pool.Inv { cap := 1, chan := [0], held := [(1, 0)], next := 1 } ∧
+    ¬ Pool.Inv { cap := 1, chan := [0, 1], held := [], next := 2 } ∧
+    ¬ Pool.Inv { cap := 1, chan := [], held := [(0, 0)], next := 0 } := by
+  unfold Pool.Inv
+  decide
+
+/-- the state after the first acquisition (channel empty), and a proof that it is reachable -/
+def σ1 : St := run (init 1) [.acquire 0]
+theorem σ1_reachable : Reachable 1 σ1 := (reachable_iff_run 1 σ1).mpr ⟨_, rfl⟩
+
+/-- `C13_acquire_fresh_or_cached`, both alternatives: the cached object from the initial state, a
+    fresh one from `σ1` (hypothesis `Inv` by `C13_exclusive`) -/
+example := C13_acquire_fresh_or_cached (C13_exclusive 1 []) 0
+example := C13_acquire_fresh_or_cached (σ := σ1) (C13_exclusive 1 [.acquire 0]) 1
+example : (acquire (init 1) 0).2 = 0 ∧ (acquire σ1 1).2 = 1 ∧ σ1.held = [(0, 0)] := by decide
+
+/-- `C13_nonblocking` at the reachable state `σ1`, where a thread holds an object -/
+example := C13_nonblocking 1 σ1 σ1_reachable
+
+/-- `sync_pool_contract` instantiated with the bounded cache itself (`bounded_cache_meets_contract`
+    is its hypothesis `hstep`), along two acquisitions from the initial state: all three hypotheses -/
+def R (σ σ' : St) : Prop := Pool.Inv σ ∧ ∃ s, step σ s = some σ'
+
+example : ((run (init 1) [.acquire 0, .acquire 1]).held.map (·.2)).Nodup ∧
+    ∀ t t' o, (t, o) ∈ (run (init 1) [.acquire 0, .acquire 1]).held →
+      (t', o) ∈ (run (init 1) [.acquire 0, .acquire 1]).held → t = t' :=
+  sync_pool_contract St.held R (fun σ σ' h => bounded_cache_meets_contract σ σ' h.1 h.2)
+    (init 1) (run (init 1) [.acquire 0, .acquire 1])
+    (.tail (.tail (.refl _) ⟨C13_exclusive 1 [], .acquire 0, rfl⟩) ⟨C13_exclusive 1 [.acquire 0], .acquire 1, rfl⟩)
+    (by decide)
+
+/-- … and its conclusion fails for a provider that hands out an object in use (so `hstep` matters) -/
+example : ¬ ([(0, 0), (1, 0)].map (·.2) : List Obj).Nodup := by decide
+
+/-- `C13_served_released_once` on a request whose response IS encoded (one compressor acquired and
+    released), recovered panic included; `Spec.c13Holds` is falsified by a compressor that was not
+    released, one released twice, and a ledger anomaly -/
+def cfg : Serve.Cfg :=
+  { routing := { router := .curly, services := [{ id := 0, root := "/a".toList, routes :=
+      [{ id := 7, method := "GET".toList, relPath := [], consumes := [], produces := [], conds := [], noct := [] }] }] }
+    routes := [{ id := 7, script := [.write "x".toList, .panic "boom".toList] }]
+    encoding := true
+    recover := true }
+def sr : Serve.SReq := { req := { method := "GET".toList, path := "/a".toList }, acceptEncoding := "gzip".toList }
+def o : Spec.Obs := Spec.obsOf (Serve.serve ⟨fun _ _ => true, fun _ _ => true⟩ cfg .dispatch {} sr)
+
+example : Spec.c13Holds o = true := C13_served_released_once _ cfg .dispatch sr
+example : o.acq = 1 ∧ o.rel = 1 ∧ o.coded = true ∧
+    Spec.c13Holds { o with rel := 0 } = false ∧ Spec.c13Holds { o with rel := 2 } = false ∧
+    Spec.c13Holds { o with dbl := 1 } = false := by
+  decide
+
+end C13Example
+
 /-! The frame condition (Lemmas/StateShape.lean): the code has exactly the state this property's model
     accounts for — no further package-level variable, struct type or field; constants as modelled. -/
 -- also: Restful.StateShape.globals_shape
